@@ -1,8 +1,9 @@
 SPECIFICATION Spec
 CONSTANTS
-  PieceLens = {0, 1, 2, 3, 4, 5, 6, 9}
-  PeekLens = {1, 2, 3, 5, 9, 20}
+  PieceLens = {0, 1, 3, 4, 5, 9}
+  PeekLens = {1, 3, 20}
   MaxLen = 12
+  MaxApp = 5
 VIEW View
 INVARIANT PeekIsPrefix
 PROPERTY PeekNonEmpty
